@@ -35,6 +35,13 @@ Input classes generated on purpose (each is reached many times per quick run):
     non-default object / probe / dataset constraints (through reconstruct(reset=True, constraints=...) and/or
     the models' public constraints setters) runs in the same process, then the SAME problem is built from
     scratch once more and its truth loss must meet the same bound (no state may leak between instances).
+  * live-edit histories (1/3 of all cases): the Ptychography object is first built and preprocessed with stale
+    physical parameters (another beam energy and/or slice thicknesses scaled by 0.5 / 2) that are then corrected
+    on the live object through public setters (probe_model.probe_params, swapping in a probe model, the
+    slice_thicknesses setter), optionally followed by a second preprocess(); the data always belong to the
+    corrected parameters, so the truth loss owes the usual bound.
+  * "reconstruct_history" cases use a validation split (preprocess(val_ratio, val_mode), both modes) half of
+    the time; val_iter_losses entries owe the same truth bound as iter_losses.
   * "reconstruct_history" cases: after the direct evaluation, a fresh Ptychography object at the ground
     truth goes through 2-3 public reconstruct() calls (1-2 iterations each, independently drawn loss
     types, reset=False continuation or reset=True) with nothing to optimise (no optimiser in descan mode
@@ -321,7 +328,22 @@ def cases(draw, even_only=False):
         },
         "seed": draw(SEEDS),
     }
+    if draw(st.integers(0, 2)) == 0:
+        # live-edit history: built with stale physical parameters, corrected through public setters
+        E = case["energy"]
+        stale_E = draw(st.sampled_from([None] + [e for e in (60e3, 80e3, 120e3, 200e3, 300e3) if e != E]))
+        scale = draw(st.sampled_from([None, 0.5, 2.0])) if S > 1 else None
+        if stale_E is None and scale is None:
+            stale_E = 120e3
+        case["stale"] = {
+            "energy": stale_E,
+            "thick_scale": scale,
+            "via": draw(st.sampled_from(["probe_params", "swap_probe_model"])),
+            "re_preprocess": draw(st.booleans()),
+        }
     if recon:
+        if draw(st.booleans()):
+            recon["val"] = {"ratio": draw(st.sampled_from([0.2, 0.25, 0.34, 0.5])), "mode": draw(st.sampled_from(["grid", "random"]))}
         case["recon"] = recon
     return case
 
@@ -417,6 +439,7 @@ def _check_recon(ctx, case, pt, obj, probe_installed, tol_of, where):
     calls = case["recon"]["calls"]
     obj0 = B.to_np(pt.obj_model.params).copy()
     expected = 0
+    nval = 0
     hist = []
     for ci, call in enumerate(calls):
         lt = call["loss"]
@@ -443,6 +466,22 @@ def _check_recon(ctx, case, pt, obj, probe_installed, tol_of, where):
                 "reconstruct() at the ground truth reports %s iteration losses %s (tolerance %.3e) after the call sequence [%s] (%s)"
                 % (lt, ["%.3e" % v for v in new], tol, "; ".join(hist), where),
             )
+        # held-out positions (validation split): the same data-fidelity loss, the same bound
+        with ctx.sut(case, "val_iter_losses"):
+            vl = np.asarray(pt.val_iter_losses, dtype=np.float64)
+        vstart = 0 if reset else nval
+        newv = vl[vstart:]
+        nval = len(vl)
+        if newv.size:
+            ctx.count("validation_losses_judged", int(newv.size))
+            _stat("reconstruct() validation loss / tol [%s]" % lt, float(np.max(newv)) / tol, case)
+            if not np.all(np.isfinite(newv)) or np.any(newv > tol):
+                _fail(
+                    case,
+                    "reconstruct() at the ground truth reports %s validation (held-out positions) losses %s (tolerance %.3e; "
+                    "training losses %s) with val_ratio=%s, val_mode=%s after the call sequence [%s] (%s)"
+                    % (lt, ["%.3e" % v for v in newv], tol, ["%.3e" % v for v in new], pt.val_ratio, pt.val_mode, "; ".join(hist), where),
+                )
     # the bound is only owed if the models stayed at the truth: make sure the harness did not move them
     obj1 = B.to_np(pt.obj_model.params)
     prb1 = B.to_np(pt.probe_model.params[-1])
@@ -532,6 +571,18 @@ def check(ctx, case):
     ]
     if J > 1000:
         classes.append("scan_points:%d001+" % ((J - 1) // 1000))
+    stale = case.get("stale")
+    if stale:
+        if stale.get("energy"):
+            classes.append("live_edit:energy_via_" + stale["via"] + ("_multislice" if S >= 2 else "_single_slice"))
+        if stale.get("thick_scale") and S >= 2:
+            classes.append("live_edit:slice_thicknesses")
+        if stale.get("re_preprocess"):
+            classes.append("live_edit:followed_by_second_preprocess")
+    if recon and recon.get("val"):
+        classes.append("history:validation_split_" + recon["val"]["mode"])
+        if any("intensity" in c["loss"] for c in recon["calls"]):
+            classes.append("history:validation_split_with_intensity_loss")
     if M >= 2:
         classes.append("modes:" + ("installed_strongest_first" if order == sorted(order) else "installed_out_of_order"))
     if has_tie:
@@ -587,6 +638,8 @@ def check(ctx, case):
         where += " mode order %s" % order
     if has_tie:
         where += "; scan points exactly half-way between object pixels: %s" % np.unique(pos[ties]).tolist()[:6]
+    if stale:
+        where += "; live edit %s" % {k: v for k, v in stale.items() if v}
     descan_on = case["descan"] != "A"
 
     # -- 3. reference data -> library -> loss at the truth.  A position exactly half-way between two pixels has
@@ -651,7 +704,7 @@ def check(ctx, case):
     if recon:
         with ctx.sut(case, "dataset preprocessing / Ptychography.from_models / preprocess"):
             pdset2 = B.make_dataset(case, I_true)
-            pt2 = B.make_ptycho(case, pdset2, obj)
+            pt2 = B.make_ptycho(case, pdset2, obj, val=recon.get("val"))
             pt2.probe_model.initial_probe = np.asarray(probe_inst, dtype=np.complex128)  # reset=True returns to it
             B.install_probe(pt2, probe_inst)
         _check_recon(ctx, case, pt2, obj, probe_inst, lambda t: truth_tol(t, J, npix, imean, peak_ratio, phi), where)
